@@ -124,6 +124,7 @@ let () =
             let (sx', so) = spec_aop !sx op in
             sx := sx';
             Buffer.add_string r (" " ^ show false o); Buffer.add_string s (" " ^ show false so)) ops;
+          if ops = [] then (Buffer.add_string r " -"; Buffer.add_string s " -");
           print_string ("R" ^ Buffer.contents r ^ "\nS" ^ Buffer.contents s ^ "\n")
         | "R" :: _mode :: ctor :: ts :: ti :: _ :: ops ->
           let rg = range_of ctor in
@@ -137,6 +138,7 @@ let () =
             let so = spec_rop rg op in
             let sorted = (tok = "fc") in
             Buffer.add_string r (" " ^ show sorted o); Buffer.add_string s (" " ^ show sorted so)) ops;
+          if ops = [] then (Buffer.add_string r " -"; Buffer.add_string s " -");
           print_string ("R" ^ Buffer.contents r ^ "\nS" ^ Buffer.contents s ^ "\n")
         | ["F"; _mode; _; _; _; _; its] ->
           let (o, i) = match String.split_on_char '/' its with
